@@ -1,11 +1,11 @@
 #!/venv/bin/python
-"""update_design_tables.py MATRIX.txt : (re)write the tables of waves 4-8 in DESIGN.md after the <!-- WAVE-TABLES --> marker."""
+"""update_design_tables.py MATRIX.txt : (re)write the tables of waves 4-9 in DESIGN.md after the <!-- WAVE-TABLES --> marker."""
 import os
 import subprocess
 import sys
 
 VERIF = os.path.dirname(os.path.dirname(os.path.abspath(__file__)))
-WAVES = [("Fourth wave", "-g,-h"), ("Fifth wave", "-i,-j"), ("Sixth wave", "-k,-l"), ("Seventh wave", "-m,-n"), ("Eighth wave", "-o,-p")]
+WAVES = [("Fourth wave", "-g,-h"), ("Fifth wave", "-i,-j"), ("Sixth wave", "-k,-l"), ("Seventh wave", "-m,-n"), ("Eighth wave", "-o,-p"), ("Ninth (half) wave", "-q")]
 
 
 def main():
